@@ -59,8 +59,8 @@ impl Property for C17 {
     }
     fn plan(&self, suite: SuiteId, tier: Tier) -> Vec<(u32, u32)> {
         let per = match (tier, suite.slow()) {
-            (Tier::Quick, false) => 50,
-            (Tier::Quick, true) => 10,
+            (Tier::Quick, false) => 150,
+            (Tier::Quick, true) => 25,
             (Tier::Thorough, false) => 1000,
             (Tier::Thorough, true) => 200,
         };
